@@ -47,7 +47,7 @@ def run_rules(prop, tier, seed, ev, jobs):
     ev.bounds.append("symbolic message instances with at most K=%d occurrences of every repeating field / sequence" % K)
     for r in results:
         q = r["query"]
-        is_c13 = q.startswith("stop-on-first")
+        is_c13 = q.startswith("stop-on-first") or q.startswith("re-validation")
         if prop == "C04" and is_c13:
             continue
         if prop == "C13" and not is_c13 and r["verdict"] not in ("not-encoded", "error"):
@@ -57,6 +57,9 @@ def run_rules(prop, tier, seed, ev, jobs):
                      time_s=r.get("time_s", 0), states=1, transitions=1, nontrivial=True)
         ev.replayed += len(r.get("models_tried", []) or [])
         if v == "unsat":
+            continue
+        if v == "unsat-bounded":
+            ev.outside.append("%s %s: %s" % (r["type"], q, r.get("bound", "")))
             continue
         if v == "skipped":
             ev.outside.append("%s %s: %s" % (r["type"], q, r.get("detail", "")))
@@ -130,10 +133,52 @@ def run_class(prop, tier, seed, ev, jobs):
     return rc
 
 
+def run_wrap(prop, tier, seed, ev, jobs):
+    """validation wrappers (SwiftMessage::validate, ParsedSwiftMessage::validate, the validate_mt plugin) vs the body's own list"""
+    results = _run("wrapcheck", "run", {"K": 2 if tier == "quick" else 3})
+    rc = EXIT_OK
+    ev.assumptions.append("wrappers are executed from source with the body's validate_network_rules(false) as an uninterpreted list of "
+                          "n <= K errors with arbitrary codes, and SwiftParser::parse_auto as an arbitrary Ok(variant) / Err(ParseError variant); "
+                          "a satisfiable query is confirmed by running the typed API, parse_auto and the plugin (dataflow-rs handler, polled "
+                          "to completion) on a real message")
+    ev.functions.update(["swift_message::SwiftMessage::validate", "parsed_message::ParsedSwiftMessage::validate",
+                         "plugin::validate::Validate::{validate_mt_message,validate_network_rules}"])
+    for r in results:
+        v = r["verdict"]
+        ev.add_query(engine="mtsym/z3", name="%s:%s" % (r["type"], r["query"]), bound="K=%s body errors" % r.get("K", 2), verdict=v,
+                     time_s=r.get("time_s", 0), states=1, transitions=1, nontrivial=True)
+        if v == "unsat":
+            if r.get("note"):
+                ev.outside.append("%s: %s" % (r["query"], r["note"]))
+            continue
+        if v == "sat":
+            w = r.get("witness") or {}
+            ev.replayed += 1
+            payload = {"property": prop, "engine": "mtsym-wrap", "type": r["type"], "query": r["query"], "why": w.get("why"), "detail": w.get("detail")}
+            path = write_replay_file(prop, payload)
+            ev.samples.append({"type": r["type"], "query": r["query"], "witness": w})
+            ev.violations += 1
+            print("VIOLATION property=%s replay=%s" % (prop, path), flush=True)
+            log("   %s %s :: %s" % (r["type"], r["query"], w.get("why")))
+            rc = combine(rc, EXIT_VIOLATION)
+        else:
+            log("[wrap] %s %s: %s %s" % (r["type"], r["query"], v, str(r.get("detail", ""))[:300]))
+            ev.not_encoded.append("%s %s: %s" % (r["type"], r["query"], v))
+            rc = combine(rc, EXIT_INCONCLUSIVE)
+    ev.outside.append("the dataflow plumbing around validate_mt_message (reading the payload, storing the result); bodies with more than K errors")
+    return rc
+
+
 def replay_file(path):
     from common import replay_batch
     payload = json.load(open(path))
     eng = payload.get("engine")
+    if eng == "mtsym-wrap":
+        text = (payload.get("detail") or {}).get("text", "")
+        outs = replay_batch([{"op": "auto", "text": text}, {"op": "plugin_validate", "text": text}], "dev")
+        outs_r = replay_batch([{"op": "auto", "text": text}, {"op": "plugin_validate", "text": text}], "release")
+        print(json.dumps({"claimed": payload["why"], "text": text, "real_dev": outs, "real_release": outs_r}, indent=1)[:5000])
+        return EXIT_VIOLATION
     if eng == "mtsym-rules":
         out = replay_batch([{"op": "validate_json", "type": payload["type"], "json": payload["json"]}], "dev")[0]
         out_r = replay_batch([{"op": "validate_json", "type": payload["type"], "json": payload["json"]}], "release")[0]
